@@ -626,6 +626,9 @@ func do_YIELD_FROM(vm *Vm, arg int32) error {
 		if !py.IsException(py.StopIteration, err) {
 			return err
 		}
+		// the subiterator is finished: its return value is the
+		// value of the yield from expression
+		vm.SET_TOP(py.StopIterationValue(err))
 		return nil
 	}
 	// x remains on stack, retval is value to be yielded
